@@ -73,7 +73,10 @@ def plan(tier, seed):
                         continue
                     specs.append({"kind": "config", "compression": comp, "store": store, "pathkind": pk, "mode": mode})
     specs = [s for s in specs if s is not None]
-    n = 300 if tier == "quick" else 3600
+    # real library classes as graphs (Dataset of every rank, ragged Vector)
+    for r in range(16 if tier == "quick" else 200):
+        specs.append({"kind": "library", "which": ["dataset", "dataset", "dataset", "vector"][r % 4], "compression": COMPRESSION[(r * 3) % 11]})
+    n = 300 if tier == "quick" else 8000
     for r in range(n):
         specs.append({"kind": "random", "compression": COMPRESSION[r % 11], "pathkind": "Path" if r % 2 else "str", "mode": "o" if r % 3 == 0 else "w", "auto": r % 5 == 0})
     return specs
@@ -87,6 +90,12 @@ def setup(ctx):
     from vf import deq, sergraph
 
     ctx.state.update(load=load, AS=AutoSerialize, sg=sergraph, deq=deq)
+    try:
+        from quantem.core.datastructures import Dataset, Vector
+
+        ctx.state.update(Dataset=Dataset, Vector=Vector)
+    except Exception:  # noqa: BLE001
+        ctx.hooks_missing.append("quantem.core.datastructures.Dataset/Vector")
     os.makedirs(os.path.join(ctx.tmp, "c01"), exist_ok=True)
 
 
@@ -258,11 +267,46 @@ def _config_graph(ctx, rng):
     return g
 
 
+def _library_graph(ctx, spec, rng):
+    """a Dataset / Vector built through the library's own constructors (None when the constructor is not available)."""
+    import numpy as np
+
+    try:
+        if spec["which"] == "dataset":
+            nd = int(rng.integers(1, 5))
+            shape = tuple(int(v) for v in rng.integers(1, 5, size=nd))
+            dt = ["float32", "float64", "int16", "uint8", "complex64", "bool"][int(rng.integers(6))]
+            arr = ctx.state["sg"].make_array_shape(rng, dt, shape)
+            o = ctx.state["Dataset"].from_array(arr, name="d%d" % int(rng.integers(99)), origin=tuple(float(v) for v in rng.normal(size=nd)),
+                                                sampling=tuple(float(v) for v in rng.uniform(0.1, 2, size=nd)), units=tuple("A" for _ in range(nd)))
+            md = {"note": "héllo", "n": 3, "nested": {"k": [1, 2.5], "p": (1, "a")}, "arr": np.arange(3, dtype=np.int8)}
+            if isinstance(getattr(o, "_metadata", None), dict):
+                o._metadata.update(md)
+            else:
+                o._metadata = md
+        else:
+            o = ctx.state["Vector"].from_shape((2, 3), fields=["a", "b"], name="v")
+            for _ in range(4):
+                i, j = int(rng.integers(2)), int(rng.integers(3))
+                o[i, j] = rng.normal(size=(int(rng.integers(0, 5)), 2))
+        return o
+    except Exception:  # noqa: BLE001  (constructor API differs: not this property's business)
+        return None
+
+
 def run_case(spec, idx, ctx):
     sg = ctx.state["sg"]
     rng = ctx.rng(idx)
     kind = spec["kind"]
-    if kind == "matrix":
+    if kind == "library":
+        g = _library_graph(ctx, spec, rng) if "Dataset" in ctx.state else None
+        if g is None:
+            ctx.count("library_object_unavailable")
+            ctx.nontrivial("library-unavailable", False)
+            return
+        fields = {"case_kind": "library", "which": spec["which"]}
+        cfg = {"compression": spec["compression"], "pathkind": "str", "mode": "w"}
+    elif kind == "matrix":
         v = sg.build_kind(spec["vkind"], rng)
         g = sg.place(v, spec["placement"], rng)
         fields = {"case_kind": "matrix", "vkind": spec["vkind"], "vclass": spec["vkind"].split(":")[0], "placement": spec["placement"]}
